@@ -1,8 +1,9 @@
 #!/bin/bash
-# runs every thorough tier sequentially (background use: vp run -- tools/thorough_all.sh)
-export GOFLAGS=-mod=mod GOPROXY=off GOSUMDB=off GOTOOLCHAIN=local
-cd engine && go build -o /tmp/vcheck-thorough ./cmd/vcheck && cd ..
-for p in ${@:-C17 C18 C19 C12 C08 C07 C20 C10 C14 C13 C05 C11 C03 C04 C06 C09 C01 C02}; do
-  /usr/bin/time -f "$p wall=%es" timeout 2400 /tmp/vcheck-thorough -p $p -tier thorough -verif $PWD -j ${J:-8} -summary 2>&1 | grep -v "^\[" | tail -25 | cut -c1-300
-  echo "== $p exit=${PIPESTATUS[0]}"
+# runs every thorough tier sequentially from /verif against /repo; prints exit codes and times
+cd /verif
+for p in ${@:-C18 C08 C17 C06 C12 C20 C07 C09 C01 C14 C10 C13 C05 C11 C03 C04 C19 C02}; do
+  s=$(date +%s)
+  timeout ${CAP:-3000} ./bin/vcheck -p $p -tier thorough ${J:+-j $J} > /tmp/thorough-$p.log 2>&1
+  rc=$?
+  echo "$p exit=$rc $(( $(date +%s) - s ))s $(grep -c '^KNOWN-FINDING' /tmp/thorough-$p.log) known; $(grep -m2 'INCONCLUSIVE\|VIOLATION' /tmp/thorough-$p.log | cut -c1-220 | tr '\n' ' ')"
 done
